@@ -26,7 +26,8 @@ Inductive bstep :=
 | BRescue (sender r amount : Z)
 (* a claim whose validator field is the all-upper-case bech32 spelling of a validator's address: the whitelist check
    compares the raw string with the canonical spelling of every whitelisted validator, so it is always refused *)
-| BClaimUpper (pid val cid : Z).
+| BClaimUpper (pid val cid : Z)
+| BSetBlacklist (is_admin : bool) (sender : Z) (addrs : list Z).
 
 Definition dBStep : dec bstep :=
   k <- dZ ;;
@@ -35,11 +36,13 @@ Definition dBStep : dec bstep :=
   else if k =? 3 then s <- dZ ;; v <- dZ ;; ad <- dBool ;; dRet (BWhitelist s v ad)
   else if k =? 4 then s <- dZ ;; r <- dZ ;; dRet (BCethReceiver s r)
   else if k =? 6 then p <- dZ ;; v <- dZ ;; c <- dZ ;; dRet (BClaimUpper p v c)
+  else if k =? 7 then ad <- dBool ;; sd <- dZ ;; l <- dList dZ ;; dRet (BSetBlacklist ad sd l)
   else s <- dZ ;; r <- dZ ;; a <- dZ ;; dRet (BRescue s r a).
 
 Definition signer_of_b (st : bstep) : Z :=
   match st with
   | BClaim _ v _ => v | BLock _ s _ _ _ _ => s | BWhitelist s _ _ => s | BCethReceiver s _ => s | BRescue s _ _ => s | BClaimUpper _ v _ => v
+  | BSetBlacklist _ s _ => s
   end.
 
 Definition bhandle (s : bridge_state) (st : bstep) : Outcome bridge_state :=
@@ -54,6 +57,7 @@ Definition bhandle (s : bridge_state) (st : bstep) : Outcome bridge_state :=
   | BCethReceiver sd r => update_ceth_receiver s sd r
   | BRescue sd r a => rescue_ceth s sd r a
   | BClaimUpper _ _ _ => Err 1
+  | BSetBlacklist ad sd l => set_blacklist s ad sd l
   end.
 
 Definition bdeliver (s : bridge_state) (fee : Z) (st : bstep) : bridge_state * bool :=
@@ -70,6 +74,9 @@ Definition prophecy_eqb (a b : prophecy) : bool :=
   list_eqb (pair_eqb Z.eqb (list_eqb Z.eqb)) (sort_pairs (pr_claims a)) (sort_pairs (pr_claims b)) &&
   list_eqb (pair_eqb Z.eqb Z.eqb) (sort_pairs (pr_vclaims a)) (sort_pairs (pr_vclaims b)).
 
+(* the blacklist is a set *)
+Definition as_set (l : list Z) : list Z := map fst (fold_left (fun m k => set k tt m) l []).
+
 Definition bridge_diff (a b : bridge_state) : Z :=
   if negb (bal_eqb (balances (br_bank a)) (balances (br_bank b))) then 2
   else if negb (zstore_eqb (supply (br_bank a)) (supply (br_bank b))) then 3
@@ -78,6 +85,7 @@ Definition bridge_diff (a b : bridge_state) : Z :=
   else if negb (list_eqb Z.eqb (br_peggy a) (br_peggy b)) then 6
   else if negb (match br_ceth_receiver a, br_ceth_receiver b with
                 | Some x, Some y => x =? y | None, None => true | _, _ => false end) then 7
+  else if negb (list_eqb Z.eqb (as_set (br_blacklist a)) (as_set (br_blacklist b))) then 9
   else 0.
 
 Definition bcase := (Z * bstep * Z * bool * bridge_state * bridge_state)%type.
